@@ -244,4 +244,158 @@ Proof.
   - unfold on_block. destruct (negb (stop_at w1 =? 0) && negb (stopped w1)); [|apply B].
     cbn [andb]. apply (aik_pre _ _ r1 (w_stop w1)); [exact B|apply IH].
 Qed.
+
+Lemma wpost_lg sel b w x : wpost sel b w x -> lg w (res_w x).
+Proof.
+  destruct x as [[k|] w'|o w']; cbn [wpost res_w].
+  - intros (b1 & b2 & _ & _ & Hio & _). eapply io_rel_lg. exact Hio.
+  - apply io_rel_lg.
+  - destruct o; try contradiction.
+    + intros (_ & _ & b1 & b2 & _ & _ & Hio). eapply io_rel_lg. exact Hio.
+    + intros (b1 & b2 & _ & Hio). eapply io_rel_lg. exact Hio.
+Qed.
+
+(* operations on a Request returning it: same request, longer log, whatever the outcome *)
+Definition kpost {X} (r : rstate) (w : world) (x : res (X * rstate)) : Prop :=
+  match x with Ok (_, r') w' => pk r w r' w' | Halt _ w' => lg w w' end.
+
+Lemma kpost_pre {X} r w r1 w1 (x : res (X * rstate)) : pk r w r1 w1 -> kpost r1 w1 x -> kpost r w x.
+Proof.
+  intros B. destruct x as [[v r'] w'|o w']; cbn [kpost].
+  - intros A. eapply pk_trans; eassumption.
+  - intros A. eapply lg_trans; [apply B|exact A].
+Qed.
+
+Definition dwk (r : rstate) (w : world) (x : res (option N * rstate)) : Prop :=
+  match x with Ok (e, r') w' => pk r w r' w' /\ e <> Some EK_Reset | Halt _ w' => lg w w' end.
+
+Lemma do_writeable_k r w : dwk r w (do_writeable maxc r w).
+Proof.
+  unfold do_writeable. destruct (rwriteable r); [split; [apply pk_refl|discriminate]|].
+  match goal with |- context [set_stream ?p ?s] => destruct (set_stream p s) as [p'| |] eqn:ES end; [|apply lg_refl|apply lg_refl].
+  apply set_stream_sreq in ES.
+  match goal with |- context [await_input maxc ?fu ?d ?r0 w] => pose proof (await_input_k fu d r0 w) as H; destruct (await_input maxc fu d r0 w) as [[[v|k] r'] w'|o w'] end;
+    cbn [aik dwk rsp] in *.
+  - destruct H as [[Q L] _]. cbn [rsp] in Q. split; [split; [congruence|exact L]|discriminate].
+  - destruct H as [[Q L] Nk]. cbn [rsp] in Q. split; [split; [congruence|exact L]|]. intros X. injection X as ->. exact (Nk _ eq_refl eq_refl).
+  - exact H.
+Qed.
+
+Lemma boundary_loop_k : forall fuel new r w, kpost r w (boundary_loop maxc fuel new r w).
+Proof.
+  induction fuel as [|f IH]; intros new r w; [apply lg_refl|]. rewrite ConnTotal.boundary_loop_S.
+  assert (AFTER : forall p', sreq p' = sreq (rsp r) -> kpost r w (ConnTotal.bl_after maxc f r w p')).
+  { intros p' Hq. unfold ConnTotal.bl_after. cbv zeta. destruct (is_record_boundary p').
+    { split; [exact Hq|apply lg_refl]. }
+    pose proof (await_read_wlog (io_fuel w 0) false (sinput_space (compress p')) w) as AR.
+    assert (Hq' : sreq (compress p') = sreq (rsp r)) by exact Hq.
+    destruct (await_read (io_fuel w 0) false (sinput_space (compress p')) w) as [[b|k] w1|o w1]; cbn [res_w] in AR.
+    - assert (B : pk r w (mkR (compress p') (rwriteable r) (rlock r) (raborted r)) w1).
+      { split; [exact Hq'|]. apply (lg_eq _ w); [exact AR|apply lg_refl]. }
+      destruct b as [|x b']; [exact B|]. eapply kpost_pre; [exact B|apply IH].
+    - split; [exact Hq'|]. apply (lg_eq _ w); [exact AR|apply lg_refl].
+    - apply (lg_eq _ w); [exact AR|apply lg_refl]. }
+  pose proof (sparse_sreq maxc (rsp r) new None) as HS.
+  destruct (sparse maxc (rsp r) new None) as [p' s|p' e s|n]; [apply AFTER; exact HS| |apply lg_refl].
+  destruct e; try (apply AFTER; exact HS); (split; [exact HS|apply lg_refl]).
+Qed.
+
+Lemma record_boundary_k r w : kpost r w (record_boundary maxc r w).
+Proof.
+  unfold record_boundary. destruct (is_record_boundary (rsp r)); [apply pk_refl|apply boundary_loop_k].
+Qed.
+
+Lemma close_finish_lg r3 d c w2 : lg w2 (res_w (close_finish r3 d c w2)).
+Proof.
+  pose proof (close_finish_spec r3 d c w2) as CF.
+  destruct (epilogue (r_id (sreq (rsp r3))) d c (if rwriteable r3 then ROLE_OUTPUT_STREAMS else [])) as [ep|];
+    [|rewrite CF; apply lg_refl].
+  destruct (close_finish r3 d c w2) as [[rp|k] w'|o w']; unfold cf_post in CF; cbv zeta in CF; cbn [res_w].
+  - destruct CF as [Hio _]. eapply io_rel_lg. exact Hio.
+  - destruct CF as [[Hio _]|(_ & _ & b1 & b2 & _ & _ & Hio)]; eapply io_rel_lg; exact Hio.
+  - destruct o; try contradiction.
+    repeat match type of CF with match ?x with _ => _ end => destruct x end; try contradiction.
+    destruct CF as [Hio _]. eapply io_rel_lg. exact Hio.
+Qed.
+
+Lemma close_tail_lg r1 d c w1 : lg w1 (res_w (close_tail maxc r1 d c w1)).
+Proof.
+  rewrite close_tail_unfold. destruct (set_stream (rsp r1) None) as [p2| |]; [|apply lg_refl|apply lg_refl].
+  pose proof (record_boundary_k (mkR p2 (rwriteable r1) (rlock r1) (raborted r1)) w1) as RB.
+  destruct (record_boundary maxc (mkR p2 (rwriteable r1) (rlock r1) (raborted r1)) w1) as [[[k2|] r3] w2|o w2]; cbn [kpost] in RB.
+  - apply RB.
+  - eapply lg_trans; [apply RB|apply close_finish_lg].
+  - exact RB.
+Qed.
+
+Lemma do_close_lg r d c w : lg w (res_w (do_close maxc r d c w)).
+Proof.
+  unfold do_close. pose proof (do_writeable_k r w) as DW.
+  destruct (do_writeable maxc r w) as [[[k|] r1] w1|o w1]; cbn [dwk] in DW; [| |exact DW].
+  - destruct ((k =? EK_Aborted) && raborted r1); [|apply DW]. eapply lg_trans; [apply DW|apply close_tail_lg].
+  - eapply lg_trans; [apply DW|apply close_tail_lg].
+Qed.
+
+Lemma read_all_k : forall fuel acc r w, kpost r w (read_all maxc fuel acc r w).
+Proof.
+  induction fuel as [|f IH]; intros acc r w; [apply lg_refl|]. cbn [read_all].
+  pose proof (await_input_k (io_fuel w 0) (Some 64) r w) as H.
+  destruct (await_input maxc (io_fuel w 0) (Some 64) r w) as [[[[n b]|k] r'] w'|o w']; cbn [aik] in H.
+  - destruct (n =? 0); [apply H|]. eapply kpost_pre; [apply H|apply IH].
+  - apply H.
+  - exact H.
+Qed.
+
+Lemma writer_write_all_lg fuel stype id data w : lg w (res_w (writer_write_all fuel stype id data w)).
+Proof. eapply wpost_lg. apply writer_write_all_post. Qed.
+
+Lemma run_handler_k : forall f script r w, kpost r w (run_handler maxc f script r w).
+Proof.
+  induction f as [|f IH]; intros script r w; [apply lg_refl|].
+  remember (run_handler maxc (S f) script r w) as x eqn:E. symmetry in E.
+  cbn [run_handler] in E. cbv zeta in E.
+  repeat match type of E with
+         | context [match ?y with _ => _ end] => destruct y eqn:?
+         end; subst x;
+  repeat match goal with
+         | H : await_input maxc ?fu ?d r w = _ |- _ =>
+           let K := fresh "K" in pose proof (await_input_k fu d r w) as K; rewrite H in K; clear H; cbn [aik] in K
+         | H : read_all maxc ?fu ?a r w = _ |- _ =>
+           let K := fresh "K" in pose proof (read_all_k fu a r w) as K; rewrite H in K; clear H; cbn [kpost] in K
+         | H : do_writeable maxc r w = _ |- _ =>
+           let K := fresh "K" in pose proof (do_writeable_k r w) as K; rewrite H in K; clear H; cbn [dwk] in K
+         | H : writer_write_all ?fu ?s ?i ?d w = _ |- _ =>
+           let K := fresh "K" in pose proof (writer_write_all_lg fu s i d w) as K; rewrite H in K; clear H; cbn [res_w] in K
+         | H : poll_input maxc ?fu ?d r w = _ |- _ => apply poll_input_pk in H
+         end;
+  cbn [kpost];
+  first [ exact (pk_refl r w)
+        | exact (lg_refl w)
+        | match goal with K : pk r w _ _ |- _ => exact K end
+        | match goal with K : pk r w _ _ /\ _ |- _ => exact (proj1 K) end
+        | match goal with K : lg w _ |- _ => exact K end
+        | match goal with K : lg w _ |- _ => exact (conj eq_refl K) end
+        | eapply kpost_pre; [|apply IH];
+          first [ exact (pk_refl r w)
+                | match goal with K : pk r w _ _ |- _ => exact K end
+                | match goal with K : pk r w _ _ /\ _ |- _ => exact (proj1 K) end
+                | match goal with K : lg w _ |- _ => exact (conj eq_refl K) end
+                | match goal with H : set_stream _ _ = SetOk _ |- _ => exact (conj (set_stream_sreq _ _ _ H) (lg_refl w)) end ] ].
+Qed.
+
+Lemma parse_request_lg : forall fuel p new w, lg w (res_w (parse_request norm maxc fuel p new w)).
+Proof.
+  induction fuel as [|f IH]; intros p new w; [apply lg_refl|]. cbn [parse_request].
+  destruct (parse norm maxc p new) as [p' done out|n]; [|apply lg_refl].
+  pose proof (wpost_lg _ _ _ _ (await_write_all_post (io_fuel w (len out)) true out w)) as W1.
+  destruct (await_write_all (io_fuel w (len out)) true out w) as [[k|] w1|o w1]; cbn [res_w] in W1; [exact W1| |exact W1].
+  destruct done.
+  - destruct (into_stream_parser p'); exact W1.
+  - pose proof (await_read_wlog (io_fuel w1 0) true (input_space p') w1) as AR.
+    destruct (await_read (io_fuel w1 0) true (input_space p') w1) as [[b|k] w2|o w2]; cbn [res_w] in AR.
+    + assert (L2 : lg w w2) by (apply (lg_eq _ w1); [exact AR|exact W1]).
+      destruct b as [|x b']; [exact L2|]. eapply lg_trans; [exact L2|apply IH].
+    + apply (lg_eq _ w1); [exact AR|exact W1].
+    + apply (lg_eq _ w1); [exact AR|exact W1].
+Qed.
 End LogConn.
